@@ -269,6 +269,14 @@ func visitInstr(fr *frame, instr ssa.Instruction) continuation {
 			fr.p.thread = saved
 			break
 		}
+		// fork-join: a function that later waits for its goroutines with (*sync.WaitGroup).Wait spawns them all first;
+		// they run (in spawn order) when it reaches the Wait -- the schedule in which the spawning loop has finished
+		// before the first goroutine starts (what go's scheduler does for short loops; it is the schedule in which a
+		// goroutine sees the final value of a variable the loop keeps writing)
+		if fr.p.eng.callsWaitGroupWait(fr.fn) {
+			fr.p.goQueue = append(fr.p.goQueue, queuedGo{fn: fn, args: args, pos: instr.Pos(), spawner: fr})
+			break
+		}
 		call(fr.p, fr, instr.Pos(), fn, args)
 
 	case *ssa.MakeChan:
@@ -569,4 +577,45 @@ func doRecover(caller *frame) value {
 		}
 	}
 	return iface{}
+}
+
+// queuedGo is a goroutine of a fork-join function that has been spawned and not yet run.
+type queuedGo struct {
+	fn      value
+	args    []value
+	pos     token.Pos
+	spawner *frame
+}
+
+// runQueuedGoroutines runs the goroutines spawned so far (and those they spawn).
+func (p *Path) runQueuedGoroutines(fr *frame) {
+	for len(p.goQueue) > 0 {
+		g := p.goQueue[0]
+		p.goQueue = p.goQueue[1:]
+		call(p, fr, g.pos, g.fn, g.args)
+	}
+}
+
+// callsWaitGroupWait reports whether fn's body contains a call of (*sync.WaitGroup).Wait (cached).
+func (e *Engine) callsWaitGroupWait(fn *ssa.Function) bool {
+	e.mu.Lock()
+	v, ok := e.waitFns[fn]
+	e.mu.Unlock()
+	if ok {
+		return v
+	}
+	v = false
+	for _, b := range fn.Blocks {
+		for _, in := range b.Instrs {
+			if c, isCall := in.(ssa.CallInstruction); isCall {
+				if callee := c.Common().StaticCallee(); callee != nil && callee.String() == "(*sync.WaitGroup).Wait" {
+					v = true
+				}
+			}
+		}
+	}
+	e.mu.Lock()
+	e.waitFns[fn] = v
+	e.mu.Unlock()
+	return v
 }
